@@ -7,4 +7,5 @@ CONSTANTS
 INVARIANT ReadBackInv
 INVARIANT DiskInv
 INVARIANT AllWrittenIsFinal
+INVARIANT VerifyInv
 CHECK_DEADLOCK FALSE
